@@ -363,9 +363,14 @@ def run_case(desc):
         return 'C03|{}|{}|{}{}'.format(clause, who, region,
                                        '|' + extra if extra else '')
 
-    def check_x(where):
+    def check_x(where, outorder='C'):
         if _bytes(x, dom) != xb:
-            raise Violation(sig('x-modified', where),
+            # memory layouts are part of the region (they select the plan /
+            # code path of back-ends such as FFTW)
+            xo = desc['x'].get('order', 'C')
+            where_ = where + ('' if xo == 'C' else '|x-' + xo) + \
+                ('' if outorder == 'C' else '|out-' + outorder)
+            raise Violation(sig('x-modified', where_),
                             'input changed by the {} call of {}'.format(
                                 where, name))
 
@@ -450,7 +455,7 @@ def run_case(desc):
                         ('' if outorder == 'C' else '|out-' + outorder)),
                     '{}: in-place result differs from op(x): {}'.format(
                         name, msg))
-            check_x('inplace')
+            check_x('inplace', outorder)
         strata.append('inplace')
         strata.append('out-' + outorder)
         if name in zoo.INPLACE_UNTESTED:
